@@ -811,6 +811,119 @@ def pure_mesh(ctx, T):
             llit([(src_quad[2 * n], src_quad[2 * n + 1]) for n in range(4)], lambda p: '(%s, %s)' % (qlit(p[0]), qlit(p[1]))), qlit(tol)), desc)
 
 
+MESH_SINGLE = 'mesh-single-quad-symmetric'
+MESH_FLOOR = 'mesh-50px-floor'
+
+
+def mesh_deviation(meshes, src_code, src_bbox, src_size, dst_code, dst_bbox, dst_size, n=9):
+    """largest deviation, in output pixels, of PIL's quad mapping (bilinear between the four corners of each mesh quad)
+    from the true transformation (pyproj), sampled on an n x n lattice of every quad -> (error, offending quad)"""
+    import numpy as np
+    import pyproj
+    to_dst = pyproj.Transformer.from_crs(src_code, dst_code, always_xy=True)
+    rx = (dst_bbox[2] - dst_bbox[0]) / dst_size[0]
+    ry = (dst_bbox[3] - dst_bbox[1]) / dst_size[1]
+    sx = (src_bbox[2] - src_bbox[0]) / src_size[0]
+    sy = (src_bbox[3] - src_bbox[1]) / src_size[1]
+    A, B = np.meshgrid(np.linspace(0, 1, n), np.linspace(0, 1, n))
+    worst, where = 0.0, None
+    for quad, sq in meshes:
+        w, h = quad[2] - quad[0], quad[3] - quad[1]
+        nw, sw_, se, ne = sq[0:2], sq[2:4], sq[4:6], sq[6:8]
+        px = nw[0] + (ne[0] - nw[0]) * A + (sw_[0] - nw[0]) * B + (se[0] - sw_[0] - ne[0] + nw[0]) * A * B
+        py = nw[1] + (ne[1] - nw[1]) * A + (sw_[1] - nw[1]) * B + (se[1] - sw_[1] - ne[1] + nw[1]) * A * B
+        dx, dy_ = to_dst.transform(src_bbox[0] + px * sx, src_bbox[3] - py * sy)
+        ox = dst_bbox[0] + (quad[0] + A * w) * rx
+        oy = dst_bbox[3] - (quad[1] + B * h) * ry
+        e = np.maximum(np.abs(dx - ox) / rx, np.abs(dy_ - oy) / ry)
+        e = np.where(np.isfinite(e), e, 0.0)
+        if float(e.max()) > worst:
+            worst, where = float(e.max()), tuple(quad)
+    return worst, where
+
+
+def pure_mesh_error(ctx, T):
+    """transform_meshes with the real PROJ: the affine approximation inside every quad stays within the 1.5 output
+    pixels of the property (max_px_err = 1 by design) - continental extents up to latitude 78, whole-world extents
+    symmetric about the equator, and sequences of two street-level requests panned by a few pixels"""
+    import pyproj
+    from mapproxy.image.transform import transform_meshes
+    from mapproxy.srs import SRS
+    rng = ctx.rng
+    cases = []
+    for _ in range(ctx.n(10, 60)):
+        kind = rng.choice(['continent-4326-from-3857', 'continent-4326-from-3857', 'continent-3857-from-4326', 'utm-from-4326', 'regional'])
+        if kind == 'regional':
+            lon, lat, wdeg = rng.uniform(-20, 30), rng.uniform(35, 60), rng.uniform(1, 8)
+            db, size = (lon, lat, lon + wdeg * 1.5, lat + wdeg), rng.choice([(900, 600), (600, 400)])
+            cases.append((kind, 'EPSG:3857', 'EPSG:4326', db, size))
+        elif kind == 'continent-4326-from-3857':
+            lon, lat0 = rng.uniform(-30, 10), rng.uniform(30, 52)
+            lat1 = rng.uniform(70, 78)
+            wdeg = rng.uniform(35, 60)
+            w = rng.choice([640, 800, 1000])
+            db = (lon, lat0, lon + wdeg, lat1)
+            cases.append((kind, 'EPSG:3857', 'EPSG:4326', db, (w, int(w * (lat1 - lat0) / wdeg))))
+        elif kind == 'continent-3857-from-4326':
+            x0, y0 = rng.uniform(-3e6, 1e6), rng.uniform(4e6, 7e6)
+            wm = rng.uniform(3e6, 6e6)
+            h = rng.uniform(0.6, 0.9)
+            w = rng.choice([640, 800, 1000])
+            cases.append((kind, 'EPSG:4326', 'EPSG:3857', (x0, y0, x0 + wm, min(y0 + wm * h, 1.4e7)), (w, int(w * h))))
+        else:
+            x0, y0 = rng.uniform(100000, 400000), rng.uniform(4.5e6, 5.5e6)
+            wm = rng.uniform(3e5, 9e5)
+            cases.append((kind, 'EPSG:4326', 'EPSG:25832', (x0, y0, x0 + wm, y0 + wm * 1.5), (600, 900)))
+    for L, size in [(85, (512, 256)), (80, (800, 400)), (60, (600, 200)), (70, (1024, 512))][:ctx.n(3, 4)]:
+        cases.append(('world-symmetric', 'EPSG:3857', 'EPSG:4326', (-180.0, -float(L), 180.0, float(L)), size))
+    m = 20037508.342789244
+    cases.append(('world-symmetric', 'EPSG:4326', 'EPSG:3857', (-m, -1.5e7, m, 1.5e7), (800, 600)))
+    # street level, geographic output: two requests panned by a few pixels (history)
+    for _ in range(ctx.n(3, 12)):
+        lon, lat = rng.uniform(-10, 30), rng.uniform(40, 60)
+        rdeg = rng.choice([2.6e-6, 1e-5])
+        size = (256, 256)
+        db = (lon, lat, lon + size[0] * rdeg, lat + size[1] * rdeg)
+        pan = rng.choice([3e-5, 6e-5])
+        cases.append(('pan-first', 'EPSG:3857', 'EPSG:4326', db, size))
+        cases.append(('pan-second', 'EPSG:3857', 'EPSG:4326', (db[0] + pan, db[1] + pan / 2, db[2] + pan, db[3] + pan / 2), size))
+    src_fixed = None
+    for kind, src_code, dst_code, db, size in cases:
+        s_, d_ = SRS(src_code), SRS(dst_code)
+        st, sb = call(d_.transform_bbox_to, s_, db)
+        if st != 'ok':
+            continue
+        if kind == 'pan-first':
+            # the mosaic of tiles both requests are cut from
+            pad = (sb[2] - sb[0]) * 0.5
+            src_fixed = (sb[0] - pad, sb[1] - pad, sb[2] + pad, sb[3] + pad)
+        if kind.startswith('pan'):
+            sb = src_fixed
+        res = min((sb[2] - sb[0]) / size[0], (sb[3] - sb[1]) / size[1]) * (0.5 if kind.startswith('pan') else 1.0)
+        ssize = (max(1, int(round((sb[2] - sb[0]) / res))), max(1, int(round((sb[3] - sb[1]) / res))))
+        st, meshes = call(lambda: transform_meshes(ssize, sb, s_, size, db, d_))
+        desc = {'kind': kind, 'src_srs': src_code, 'src_bbox': sb, 'src_size': ssize, 'dst_srs': dst_code, 'dst_bbox': db, 'dst_size': size}
+        ctx.case(('mesherr', kind, src_code, dst_code, db, size), True, dict(desc, quads=len(meshes) if st == 'ok' else meshes) if len(ctx.samples) < 6 else None)
+        ctx.count('mesh_error:' + kind)
+        if st != 'ok':
+            ctx.fail('mesh-raises', 'transform_meshes raised %r' % (meshes,), desc)
+            continue
+        meshes = list(meshes)
+        worst, quad = mesh_deviation(meshes, src_code, sb, ssize, dst_code, db, size)
+        key = 'mesh_error:worst_px_x1000:' + kind
+        ctx.distribution[key] = max(ctx.distribution.get(key, 0), int(worst * 1000))
+        if worst > 1.5:
+            desc.update({'quads': len(meshes), 'worst_error_px': worst, 'offending_quad': quad})
+            if kind == 'world-symmetric' and len(meshes) == 1:
+                sig = MESH_SINGLE
+            elif min(quad[2] - quad[0], quad[3] - quad[1]) < 50:
+                sig = MESH_FLOOR
+            else:
+                sig = 'mesh-quad-error'
+            ctx.fail(sig, 'reprojection mesh %s -> %s for %r, %r px: inside quad %r (of %d quads) the picture is up to %.1f output pixels away from '
+                     'the true position' % (src_code, dst_code, db, size, quad, len(meshes), worst), desc)
+
+
 def pure_srs(ctx, T):
     """The external transformation T of the theorems is PROJ: SRS.transform_to / transform_bbox_to must give what pyproj
     gives for the same pair of CRS (projected, geographic, geographic on another datum), for points and point lists."""
@@ -961,7 +1074,8 @@ def run_pure(ctx, T):
              ('lin', lambda: pure_lin(ctx, T)), ('subextent', lambda: pure_subextent(ctx, T)),
              ('transform', lambda: pure_transform(ctx, T)), ('info', lambda: pure_info(ctx, T)), ('axis', lambda: pure_axis(ctx, T)),
              ('infopos', lambda: pure_info_pos(ctx, T)), ('client', lambda: pure_client(ctx, T)),
-             ('srs', lambda: pure_srs(ctx, T)), ('mesh', lambda: pure_mesh(ctx, T))]
+             ('srs', lambda: pure_srs(ctx, T)), ('mesh', lambda: pure_mesh(ctx, T)),
+             ('mesh_error', lambda: pure_mesh_error(ctx, T))]
     for name, f in steps:
         try:
             f()
@@ -1800,9 +1914,10 @@ def e2e_reprojected(ctx):
     TR = {('EPSG:3857', 'EPSG:4326'): to4326, ('EPSG:4326', 'EPSG:3857'): to3857}
     worst_all = 0.0
     try:
-        for ci in range(ctx.n(7, 28)):
+        for ci in range(ctx.n(10, 40)):
             variant = ['request-4326-on-3857-cache', 'source-4326-for-3857-cache', 'request-3857-on-4326-cache', 'direct-source-4326',
-                       'deep-zoom-4326-cache', 'request-4314-on-4326-cache', 'source-4314-for-4326-cache'][ci % 7]
+                       'deep-zoom-4326-cache', 'request-4314-on-4326-cache', 'source-4314-for-4326-cache',
+                       'direct-source-4326-coverage', 'street-level-4326-on-3857-cache', 'source-4326-coverage-for-3857-cache'][ci % 10]
             origin = rng.choice(['ll', 'ul'])
             ms = rng.choice([[1, 1], [2, 2], [4, 4]])
             buf = rng.choice([0, 20])
@@ -1824,7 +1939,7 @@ def e2e_reprojected(ctx):
             else:
                 m = 20037508.342789244
                 grid = {'srs': 'EPSG:3857', 'bbox': [-m, -m, m, m], 'origin': origin, 'tile_size': [256, 256],
-                        'res': [2 * m / 256 / 2 ** k for k in range(12)]}
+                        'res': [2 * m / 256 / 2 ** k for k in range(20 if variant.startswith('street') else 12)]}
                 gsrs, rsrs = 'EPSG:3857', 'EPSG:4326'
             conf = {
                 'services': {'wms': {'srs': ['EPSG:4326', 'EPSG:3857', 'EPSG:4314'], 'image_formats': ['image/png'], 'md': {'title': 't'}}},
@@ -1844,13 +1959,21 @@ def e2e_reprojected(ctx):
                 conf['layers'][0]['sources'] = ['src']
                 conf['sources']['src']['supported_srs'] = ['EPSG:4326']
                 up_srs, rsrs = 'EPSG:4326', 'EPSG:3857'
+            elif variant in ('direct-source-4326-coverage', 'source-4326-coverage-for-3857-cache'):
+                # supported_srs and coverage together: the transformed request is cut down to the coverage
+                if variant.startswith('direct'):
+                    conf['layers'][0]['sources'] = ['src']
+                conf['sources']['src']['supported_srs'] = ['EPSG:4326']
+                conf['sources']['src']['coverage'] = {'bbox': [5.0, 47.0, 15.0, 55.0], 'srs': 'EPSG:4326'}
+                up_srs, rsrs = 'EPSG:4326', 'EPSG:3857'
             try:
                 app, d = build_app(ctx, conf)
             except Exception as e:  # noqa
                 ctx.fail('e2e:config', 'make_wsgi_app failed for a valid configuration: %r' % (e,), {'conf': conf})
                 continue
             ctx.count('e2e:reprojection=' + variant)
-            for ri in range(ctx.n(3, 8)):
+            prev_bbox = None
+            for ri in range(ctx.n(4, 8)):
                 # a request somewhere in Europe / North America, a few hundred metres to a few hundred km wide
                 lon, lat = rng.uniform(-120, 40), rng.uniform(-55, 65)
                 size = rng.choice([(256, 256), (300, 200), (400, 400)])
@@ -1868,6 +1991,23 @@ def e2e_reprojected(ctx):
                         lon = -180 + math.floor((lon + 180) / (rdeg * 256)) * rdeg * 256
                         lat = -90 + math.floor((lat + 90) / (rdeg * 256)) * rdeg * 256
                     bbox = (lon, lat, lon + size[0] * rdeg, lat + size[1] * rdeg)
+                elif variant.startswith('street'):
+                    lon, lat = rng.uniform(-10, 30), rng.uniform(40, 60)
+                    rdeg = rng.choice([2.6e-6, 5e-6])
+                    size = (256, 256)
+                    if ri % 2 == 1:
+                        # history: the previous request again, panned by a few pixels (less than 1e-4 degree)
+                        bbox = (prev_bbox[0] + 3e-5, prev_bbox[1] + 2e-5, prev_bbox[2] + 3e-5, prev_bbox[3] + 2e-5)
+                    else:
+                        bbox = (lon, lat, lon + size[0] * rdeg, lat + size[1] * rdeg)
+                    prev_bbox = bbox
+                elif 'coverage' in variant:
+                    # across the border of the coverage (5..15 E, 47..55 N)
+                    lon = rng.choice([5.0, 15.0]) + rng.uniform(-1.5, 1.5)
+                    lat = rng.choice([47.0, 55.0, 51.0]) + rng.uniform(-1.5, 1.5)
+                    x, y = to3857.transform(lon, lat)
+                    rm = rng.choice([300.0, 1000.0, 3000.0])
+                    bbox = (x - size[0] * rm / 2, y - size[1] * rm / 2, x + size[0] * rm / 2, y + size[1] * rm / 2)
                 elif rsrs == 'EPSG:4326':
                     rdeg = rng.choice([0.0001, 0.001, 0.01, 0.05])
                     bbox = (lon, lat, lon + size[0] * rdeg, lat + size[1] * rdeg)
@@ -1907,6 +2047,9 @@ def e2e_reprojected(ctx):
                     continue
                 maps = [r for r in up.requests if r['kind'] == 'getmap']
                 rep['upstream'] = [r['url'] for r in maps][:8]
+                if not maps and 'coverage' in variant:
+                    ctx.count('e2e:reprojection_outside_coverage')
+                    continue
                 if not maps:
                     ctx.fail('e2e:no-upstream', 'no upstream request for an uncached area', rep)
                     continue
@@ -1916,7 +2059,8 @@ def e2e_reprojected(ctx):
                 up_res = max(max((r['bbox'][2] - r['bbox'][0]) / r['size'][0], (r['bbox'][3] - r['bbox'][1]) / r['size'][1]) for r in maps)
                 # the mesh approximation may deviate by up to one pixel by design (max_px_err); a source-side reprojection
                 # is followed by a second resampling from the cache level to the output
-                stages = {'source-4326-for-3857-cache': 2, 'source-4314-for-4326-cache': 2, 'deep-zoom-4326-cache': 0}.get(variant, 1) + (1 if buf else 0)
+                stages = {'source-4326-for-3857-cache': 2, 'source-4314-for-4326-cache': 2, 'deep-zoom-4326-cache': 0,
+                          'direct-source-4326-coverage': 2, 'source-4326-coverage-for-3857-cache': 3}.get(variant, 1) + (1 if buf else 0)
                 worst = pixel_oracle(ctx, up, resp.body, bbox, size, up_res, None, to_up, rep, 'e2e:' + variant, tol_px=1.5,
                                      stages=stages)
                 if worst is not None:
